@@ -86,6 +86,7 @@ func c09BGV(ctx *core.RunCtx, scaleInvariant bool) *c09Scheme {
 			ctx.Harness("no bgv parameter set: %v", c)
 		}
 	}
+	c09LastBGV = cc
 	bp := cc.params
 	T := bp.PlaintextModulus()
 	enc := bgv.NewEncoder(bp)
@@ -318,6 +319,7 @@ func c09CKKS(ctx *core.RunCtx) *c09Scheme {
 			ctx.Harness("no ckks parameter set: %v", c)
 		}
 	}
+	c09LastCKKS = cc
 	cp := cc.params
 	enc := ckks.NewEncoder(cp)
 	encr := ckks.NewEncryptor(cp, cc.pk)
